@@ -63,8 +63,12 @@ class C17(XsProp):
                 body = '3 0 do I 2 == if %s then loop' % core
             elif form < 0.8:
                 body = '0 begin 1 + dup 3 == if %s then dup 5 > until' % core
-            elif form < 0.9:
+            elif form < 0.84:
                 body = '#( %s #)' % core
+            elif form < 0.87:
+                body = '#( 3 0 do I 2 == if %s then loop #)' % core
+            elif form < 0.9:
+                body = rng.choice(['#( true if %s then #)', '#( [ 7 %s ] #)', '#( : mw %s ; mw #)', '[ #( %s #) ]']) % core
             else:
                 body = ': g 2 0 do %s loop ; g' % core
         text = pre + body
@@ -89,6 +93,22 @@ class C17(XsProp):
             case = ' | '.join(steps)
             cs.append(case)
             self.expect[case] = (len(srcs), expected_loc(text, a, b), text, cul)
+        # the failing word lives in an EARLIER source and is reached from a later one (directly, through a definition, or from a
+        # meta block): the report must name the earlier buffer and the token inside the definition
+        for i in range(n // 6):
+            good = rng.choice([[], ['1 2 +'], [': helper 1 ;', '7']])
+            cul, core = rng.choice([('+', '"a" 1 {C}'), ('/', '1 0 {C}'), ('assert', 'false {C}'), ('nth', '[ 1 ] 5 {C}'), ('neg', '"s" {C}')])
+            pre = ''.join(' ' + rng.choice(FILL) for _ in range(rng.randint(0, 4))) + ' '
+            text = pre + ': wq %s ;' % core + rng.choice(['', ' 1', '\n'])
+            ci = text.index('{C}')
+            text = text.replace('{C}', cul, 1)
+            a = len(text[:ci].encode('utf-8'))
+            b = a + len(cul.encode('utf-8'))
+            caller = rng.choice(['wq', ' \n wq', ': z wq ; z', '#( wq #)', '#( true if wq then #)', '#( 2 0 do wq loop #)', '7 #( wq #) +', '[ #( wq #) ]'])
+            steps = ['xs limits 6000 - -'] + ['eval %s' % hexsrc(g) for g in good] + ['eval %s' % hexsrc(text), 'eval %s' % hexsrc(caller), 'errloc', 'pretty']
+            case = ' | '.join(steps)
+            cs.append(case)
+            self.expect[case] = (len(good), expected_loc(text, a, b), text, cul)
         return cs
 
     def group_check(self, cases, impl):
